@@ -83,13 +83,16 @@ def main():
     # 2. demo with / without
     rc_with, o_with = sh("/venv/bin/python %s" % demo, cwd=wt, env=env, timeout=600)
     touches_c = any(f.endswith(".c") for f in meta["patch_files"])
-    sh("git stash -q", cwd=wt)
+    # (not `git stash`: the stash is shared by all worktrees of a repository, so two filings running at the
+    # same time would swap their changes)
+    patch_path = os.path.join(out, "patch.diff")
+    sh("git checkout -- .", cwd=wt)
     try:
         if touches_c:
             sh("/venv/bin/python setup.py build_ext --inplace", cwd=wt)
         rc_without, o_without = sh("/venv/bin/python %s" % demo, cwd=wt, env=env, timeout=600)
     finally:
-        sh("git stash pop -q", cwd=wt)
+        sh("git apply %s" % patch_path, cwd=wt)
         if touches_c:
             sh("/venv/bin/python setup.py build_ext --inplace", cwd=wt)
     meta["ran"]["demo_with_change_rc"] = rc_with
